@@ -243,7 +243,11 @@ class Instance(Component):
                 upper_bound, "upper_bound", 0, 1_000_000_000_000_000))
         if lb > ub:
             raise ValueError(f"lower bound = {lb} > upper_bound = {ub}!")
-        dtype: Final[np.dtype] = int_range_to_dtype(min_value=0, max_value=ub)
+        # The type must hold the upper bound, but also every single matrix
+        # entry: if one matrix is all zeros (or a small upper bound was
+        # supplied), the bound can be smaller than an entry of a matrix.
+        dtype: Final[np.dtype] = int_range_to_dtype(min_value=0, max_value=max(
+            ub, int(distances.max()), int(flows.max())))
         #: the scale of the problem
         self.n: Final[int] = shape[0]
         if name is None:
